@@ -839,7 +839,7 @@ func (ser *Epoch) FindOffsetAndSizeFromCid(ctx context.Context, cid cid.Cid) (os
 	}()
 
 	// try from cache
-	if osi, err, has := ser.GetCache().GetCidToOffsetAndSize(cid); err != nil {
+	if osi, err, has := ser.GetCache().GetCidToOffsetAndSize(ser.epoch, cid); err != nil {
 		return nil, err
 	} else if has {
 		return osi, nil
@@ -864,7 +864,7 @@ func (ser *Epoch) FindOffsetAndSizeFromCid(ctx context.Context, cid cid.Cid) (os
 			Offset: offset,
 			Size:   size,
 		}
-		ser.GetCache().PutCidToOffsetAndSize(cid, found)
+		ser.GetCache().PutCidToOffsetAndSize(ser.epoch, cid, found)
 		return found, nil
 	}
 
@@ -872,7 +872,7 @@ func (ser *Epoch) FindOffsetAndSizeFromCid(ctx context.Context, cid cid.Cid) (os
 	if err != nil {
 		return nil, err
 	}
-	ser.GetCache().PutCidToOffsetAndSize(cid, found)
+	ser.GetCache().PutCidToOffsetAndSize(ser.epoch, cid, found)
 	return found, nil
 }
 
